@@ -16,7 +16,7 @@ pub fn def() -> PropertyDef {
     PropertyDef {
         id: "C13",
         level: "exploration",
-        props: |_| vec![Box::new(LspSpectrum) as Box<dyn DynProp>, Box::new(LspAfterHistory) as Box<dyn DynProp>],
+        props: |_| vec![Box::new(LspSpectrum) as Box<dyn DynProp>, Box::new(LspAfterHistory) as Box<dyn DynProp>, Box::new(LspVoiceEngine) as Box<dyn DynProp>],
         extra: no_extra,
         replay_custom: no_custom,
         assumptions: &[
@@ -224,5 +224,35 @@ impl Prop for LspAfterHistory {
         rep.nontrivial = !c.history.is_empty();
         rep.class(format!("history:{}", c.mode.split(':').next().unwrap_or("")));
         Ok(rep)
+    }
+}
+
+/// The statement is about a VOICE whose spectrum stream is LSP: the stage, the gain convention and
+/// alpha that the vocoder is run with come from the voice file. This sub-check closes the gap between
+/// the file and the vocoder-level sub-checks above: for generated LSP voice files the engine's
+/// waveform must equal the rendering of its own trajectories by a Vocoder built from the values the
+/// harness WROTE into the file (C01's differential, restricted to LSP voices and run on every C13 run).
+pub struct LspVoiceEngine;
+
+impl Prop for LspVoiceEngine {
+    type Case = super::c01::Case;
+    fn name(&self) -> String {
+        "lsp-voice-engine".into()
+    }
+    fn rule(&self) -> String {
+        "generated LSP voice files (stage 1..4, linear / log gain, any option order, 2/3 streams, 1..7 states), 0..12 labels, condition inside the envelope: Engine::synthesize == Vocoder(stage, log-gain flag, alpha as written in the file) applied to the generator's trajectories (1e-9), plus all of C01's clauses. Non-trivial: >= 2 labels".into()
+    }
+    fn tape_len(&self, _: Tier) -> usize {
+        12000
+    }
+    fn cases(&self, tier: Tier) -> u32 {
+        tier.pick(600, 20_000)
+    }
+    fn decode(&self, t: &mut Tape, _: Tier) -> Self::Case {
+        let base = crate::engine_case::gen_engine_case(t, 12, 0, false, crate::voice::GenOpts { lsp: Some(true), ..Default::default() });
+        super::c01::Case { base, alignment: false, times: None }
+    }
+    fn check(&self, c: &Self::Case) -> Result<Report, Failure> {
+        super::c01::Synthesis.check(c)
     }
 }
